@@ -553,11 +553,12 @@ def encVarLeaf (rec : Ty → Val → Enc) (base : Nat) (v : Val) : Enc :=
     | some ty => rec ty v
     | none => .ok []
 
-/-- `m.encode(buf, reflect.ValueOf(m.value))`.  `value == nil` (nil interface, tag 0) makes
-    `val.Interface()` panic; a typed nil pointer inside the interface is an ordinary leaf. -/
-def encVarValue (rec : Ty → Val → Enc) (tid : Nat) (vt : VTag) (value : Val) : Enc :=
+/-- `m.encode(buf, reflect.ValueOf(m.value))`: a `[]byte` is one value, every other slice is flattened.
+    `value == nil` (nil interface, tag 0) makes `val.Interface()` panic; a typed nil pointer inside the interface is
+    an ordinary leaf.  (Until the repair of C01.variant-bytestring-array a Variant of type ByteString handed its
+    whole value — also a `[][]byte` — to `encodeValue`, which wrote nothing for it.) -/
+def encVarValue (rec : Ty → Val → Enc) (_tid : Nat) (vt : VTag) (value : Val) : Enc :=
   if value.isNil ∧ vt.base = 0 then .error .panicNilValue
-  else if tid = 15 then encVarLeaf rec vt.base value
   else encElems (encVarLeaf rec vt.base) (leaves value)
 
 /-- `buf.WriteInt32(m.arrayDimensionsLength)` and `m.arrayDimensions[i]` for `i < int(m.arrayDimensionsLength)` -/
@@ -574,7 +575,8 @@ def encVariant (rec : Ty → Val → Enc) (mask alen dlen : Nat) (dims : Option 
   else do
     let a := optBytes (has mask 0x80) (leBytes 4 alen)
     let b ← encVarValue rec tid vt value
-    let c ← optEnc (has mask 0x40) (encDimList dlen dims)
+    -- dimensions are written for arrays only (since the repair of C03.variant-scalar-dims-bit)
+    let c ← optEnc (has mask 0x80 && has mask 0x40) (encDimList dlen dims)
     pure (leBytes 1 mask ++ a ++ b ++ c)
 
 /-! ## DataValue -/
